@@ -16,7 +16,7 @@ KIND_TEXT = {
     'add': 'x + y', 'sub_': 'x - y', 'lshift': 'x << y', 'rshift': 'x >> y', 'bitand': 'x & y', 'bitxor': 'x ^ y', 'bitor': 'x | y',
     'eq': 'x == y', 'lt': 'x < y', 'is': 'x is y', 'isnot': 'x is not y', 'in': 'x in y', 'notin': 'x not in y', 'cmpchain': 'x < y in z',
     'not': 'not x', 'and': 'x and y', 'or': 'x or y', 'ifexp': 'y if x else z', 'lambda': 'lambda: x', 'lambda1': 'lambda p=y: x',
-    'tuple1': 'x,', 'tuple2': 'x, y', 'walrus': 'w := x', 'yield': 'yield x', 'yield0': 'yield', 'yieldfrom': 'yield from x',
+    'tuple1': 'x,', 'tuple2': 'x, y', 'startuple1': '*x,', 'startuple2': '*x, y', 'walrus': 'w := x', 'yield': 'yield x', 'yield0': 'yield', 'yieldfrom': 'yield from x',
     'starred': '*x',
 }
 
@@ -139,7 +139,7 @@ def kind_text(kind, inner=None):
 
 
 def _is_bare_tuple(t):
-    return t in (KIND_TEXT['tuple1'], KIND_TEXT['tuple2']) or t.startswith('(x),') or t.startswith('(x), ')
+    return t in (KIND_TEXT['tuple1'], KIND_TEXT['tuple2'], KIND_TEXT['startuple1'], KIND_TEXT['startuple2']) or t.startswith('(x),') or t.startswith('(x), ')
 
 
 def render(slot, child_text, parens, tuple_child=False):
